@@ -148,7 +148,7 @@ struct Ctx {
   int fstate = -1, fval = 0, fcode = 0;
   yaclib::Promise<int, TErr> late;
   int late_kind = -1;
-  bool abandon = false, abandoned = false;
+  bool abandon = false, abandoned = false, abandon_by_assignment = false;
   bool ran_before_start = false;
   int start = kToFuture, start_exec = 0;
   bool sink_called = false;
@@ -416,6 +416,16 @@ void Finish(H h, Ctx& c) {
     }
     if (c.abandon) {
       c.abandoned = true;
+      if (c.abandon_by_assignment) {
+        // t = std::move(other): the unstarted pipeline moves into `other` and is cancelled when that one dies
+        H other;
+        if constexpr (std::is_void_v<V>) {
+          other = yaclib::MakeTask<void, TErr>();
+        } else {
+          other = yaclib::MakeTask<V, TErr>(V{});
+        }
+        h = std::move(other);
+      }
       { H drop = std::move(h); }
       while (c.ex[0].Drain() | c.ex[1].Drain()) {
       }
@@ -608,6 +618,7 @@ struct Params {
   // shape hit by the known finding "LazyContract head started through Here/Next" (known_findings.txt): not executed by
   // the search (counted as excluded) unless the case explicitly asks for it (hdr[8] == 1: the known-finding replay file)
   bool known_shape = false, force = false;
+  bool abandon_by_assignment = false;  // the unstarted Task is overwritten by move-assignment instead of being destroyed
   int run_variant = 0;  // eager Run sources: 0 Run(e, f), 1 AsyncContract<V>(e, f) with f(Promise) setting the value
   std::vector<Step> prog;
 };
@@ -624,13 +635,16 @@ Params Decode(const Case& c) {
   p.start_exec = c.H(5) % 2;
   const bool lazy = p.source >= kMakeTask;
   p.abandon = lazy && c.H(6) % 4 == 0;
+  p.abandon_by_assignment = p.abandon && c.H(6) / 4 % 2 == 1;
   p.immediate = c.H(7) % 2 == 1 || (lazy && !p.abandon && p.start == kGet);
   if (!lazy) {
     p.run_variant = c.H(4) % 2;  // (the start mode field is free for eager sources)
     p.start = kToFuture;
   }
   p.force = c.H(8) == 1;
-  p.known_shape = p.source == kLazyContract && !p.abandon && (p.start == kInnerTask || p.start == kCoAwait || p.start == kAwait);
+  // (until /repo commit "fix: LazyContract head started by a continuation or co_await" this shape was excluded as a
+  // known finding; it is generated like every other one now and its old replay file stays in the regression corpus)
+  p.known_shape = false;
   for (std::size_t i = 0; i < c.Records() && i < 7; ++i) {
     const int* r = c.Rec(i);
     p.prog.push_back({r[0], r[1], r[2], r[3], r[4]});
@@ -710,6 +724,9 @@ void RunModel(const Params& p, Outcome& o) {
   }
   // The steps of a lazy pipeline are attached first and run after the start; the model can evaluate them in one pass
   // because nothing in the attach phase is observable except "nothing ran".
+  if (lazy && p.abandon_by_assignment) {
+    ++m.constructs;  // the MakeTask that overwrites the abandoned pipeline
+  }
   if (lazy && !p.abandon) {
     exec = head_exec;
     if (p.start == kInnerTask) {
@@ -790,6 +807,7 @@ void RunReal(const Params& p, Outcome& o, int source_override = -1) {
   c.ex[0].immediate = c.ex[1].immediate = p.immediate;
   c.prog = p.prog;
   c.abandon = p.abandon;
+  c.abandon_by_assignment = p.abandon_by_assignment;
   c.start = p.start;
   c.start_exec = p.start_exec;
   c.log.reserve(64);
@@ -1011,7 +1029,7 @@ class PipeFamily final : public vf::Family {
       Case c;
       c.recw = 5;
       c.hdr = {vf::Pick(0, kSourceN), vf::Pick(0, 2), vf::Pick(0, 12), vf::Pick(0, 12),
-               vf::Pick(0, kStartN),  vf::Pick(0, 2), vf::Pick(0, 4),  vf::Pick(0, 2)};
+               vf::Pick(0, kStartN),  vf::Pick(0, 2), vf::Pick(0, 8),  vf::Pick(0, 2)};
       const int n = vf::Pick(0, 8);
       for (int i = 0; i < n; ++i) {
         c.prog.push_back(vf::Pick(0, 3));
@@ -1035,7 +1053,7 @@ class PipeFamily final : public vf::Family {
                   p.immediate ? "immediate" : "queued");
     s += b;
     if (p.source >= kMakeTask) {
-      s += p.abandon ? " ABANDONED" : std::string(" start=") + kStartName[p.start] + "(e" + std::to_string(p.start_exec + 1) + ")";
+      s += p.abandon ? (p.abandon_by_assignment ? " ABANDONED(overwritten by move-assignment)" : " ABANDONED") : std::string(" start=") + kStartName[p.start] + "(e" + std::to_string(p.start_exec + 1) + ")";
       if (!p.abandon && p.start == kAwait && p.start_exec == 1) {
         s += "[completed Task read in place and destroyed]";
       }
